@@ -39,6 +39,12 @@ Section Ext.
     rewrite Happ. apply xbind_ext. intros [y s1] _. apply IH.
   Qed.
 
+  Lemma key_app_ext c items : forall s, key_app app1 c items s = key_app app2 c items s.
+  Proof.
+    induction items as [|x r IH]; intro s; simpl; [reflexivity|].
+    rewrite Happ. apply xbind_ext. intros [k s1] _. destruct k; try reflexivity. rewrite IH. reflexivity.
+  Qed.
+
   Lemma scan_app_ext c items : forall acc s, scan_app app1 c acc items s = scan_app app2 c acc items s.
   Proof.
     induction items as [|x r IH]; intros acc s; simpl; [reflexivity|].
@@ -53,6 +59,8 @@ Section Ext.
       destruct lhs, rhs; try reflexivity; apply xbind_ext; intros items _; rewrite map_app_ext; reflexivity.
     - destruct (pop1 s) as [s1 rhs]. destruct (pop1 s1) as [s2 lhs].
       destruct lhs, rhs; try reflexivity; apply xbind_ext; intros items _; rewrite filter_app_ext; reflexivity.
+    - destruct (pop1 s) as [s1 rhs]. destruct (pop1 s1) as [s2 lhs].
+      destruct lhs, rhs; try reflexivity; apply xbind_ext; intros items _; rewrite key_app_ext; reflexivity.
     - destruct (pop1 s) as [s1 top]. destruct top; try reflexivity. apply Hcs.
   Qed.
 
@@ -90,15 +98,15 @@ End Ext.
 
 (* ---- states ------------------------------------------------------------------------------------------------------ *)
 Lemma state_eta s :
-  s = mkSt (stk s) (ctxv s) (top_in s) (inner s) (fdepth s) (sdepth s) (reg s) (vars s) (out s) (printed s).
+  s = mkSt (stk s) (ctxv s) (top_in s) (inner s) (fdepth s) (sdepth s) (reg s) (vars s) (locs s) (out s) (printed s).
 Proof. destruct s; reflexivity. Qed.
 
 Ltac st_simpl :=
-  unfold set_stk, set_ctxv, set_top_in, set_inner, set_fdepth, set_sdepth, set_reg, set_vars, emit, push, scope in *;
+  unfold set_stk, set_ctxv, set_top_in, set_inner, set_fdepth, set_sdepth, set_reg, set_vars, set_locs, emit, push, scope in *;
   simpl in *.
 
 Lemma set_stk_same' s :
-  mkSt (stk s) (ctxv s) (top_in s) (inner s) (fdepth s) (sdepth s) (reg s) (vars s) (out s) (printed s) = s.
+  mkSt (stk s) (ctxv s) (top_in s) (inner s) (fdepth s) (sdepth s) (reg s) (vars s) (locs s) (out s) (printed s) = s.
 Proof. destruct s; reflexivity. Qed.
 
 Section Sim.
@@ -116,41 +124,44 @@ Section Sim.
   Lemma lambda_sim c popped s :
     core_ok_list true (c_body c) = true -> m_lambda_body mrec c popped s = r_lambda rrec c popped s.
   Proof.
-    intro Hc. destruct s as [st cv ti inn fd sd rg vs ou pr].
-    unfold m_lambda_body, r_lambda, with_stack, with_function, with_context, with_scope, with_registered, bracket.
+    intro Hc. destruct s as [st cv ti inn fd sd rg vs lc ou pr].
+    unfold m_lambda_body, r_lambda, with_stack, with_locals, with_function, with_context, with_scope, with_registered, bracket.
     unfold m_stacks_push, m_inputs_push, m_ctx_push, m_fstack_push. st_simpl.
     rewrite (Hrec true _ _ Hc).
     match goal with |- context [rrec (c_body c) ?S0] =>
       pose proof (Hfr (c_body c) S0) as K; destruct (rrec (c_body c) S0) as [s1| |] end; simpl; try reflexivity.
     destruct (pop1 s1) as [s2 r] eqn:E. apply pop1_frames in E. simpl.
     pose proof (frames_trans _ _ _ K E) as F. clear K E.
-    destruct F as (F1 & F2 & F3 & F4). destruct s2 as [st2 cv2 ti2 inn2 fd2 sd2 rg2 vs2 ou2 pr2].
+    destruct F as (F1 & F2 & F3 & F4). destruct s2 as [st2 cv2 ti2 inn2 fd2 sd2 rg2 vs2 lc2 ou2 pr2].
     simpl in F1, F2, F3, F4. subst cv2 fd2 sd2.
     destruct inn2 as [|[l c2] r2]; [contradiction|]. destruct F4 as [_ <-].
     st_simpl. reflexivity.
   Qed.
 
   (* ---- named functions ------------------------------------------------------------------------------------------ *)
-  Lemma m_params_eq ps : forall acc s, m_params ps acc s = let (s', l) := r_params ps s in (s', acc ++ l).
+  Lemma m_params_eq ps : forall acc loc s,
+    m_params ps acc loc s =
+    let '(s', l, lc) := r_params ps s in (s', acc ++ l, fold_left (fun a kv => assign (fst kv) (snd kv) a) lc loc).
   Proof.
-    induction ps as [|n r IH]; intros acc s; simpl.
+    induction ps as [|[n|x] r IH]; intros acc loc s; simpl.
     - rewrite app_nil_r. reflexivity.
-    - destruct (popn n s) as [s1 popped]. rewrite IH. destruct (r_params r s1) as [s2 more].
+    - destruct (popn n s) as [s1 popped]. rewrite IH. destruct (r_params r s1) as [[s2 more] lc].
       rewrite app_assoc. reflexivity.
+    - destruct (pop1 s) as [s1 v]. rewrite IH. destruct (r_params r s1) as [[s2 more] lc]. reflexivity.
   Qed.
 
   Lemma named_sim c s :
     core_ok_list true (c_body c) = true -> m_named_body mrec c s = r_named rrec c s.
   Proof.
-    intro Hc. unfold m_named_body, r_named. rewrite m_params_eq.
-    destruct (r_params (c_params c) s) as [s1 ps]. simpl.
-    destruct s1 as [st cv ti inn fd sd rg vs ou pr].
-    unfold with_stack, with_context, with_scope, with_registered, bracket.
+    intro Hc. unfold m_named_body, r_named, bind_all. rewrite m_params_eq.
+    destruct (r_params (c_params c) s) as [[s1 ps] loc]. simpl.
+    destruct s1 as [st cv ti inn fd sd rg vs lc ou pr].
+    unfold with_stack, with_locals, with_context, with_scope, with_registered, bracket.
     unfold m_stacks_push, m_inputs_push, m_ctx_push. st_simpl.
     rewrite (Hrec true _ _ Hc).
     match goal with |- context [rrec (c_body c) ?S0] =>
       pose proof (Hfr (c_body c) S0) as K; destruct (rrec (c_body c) S0) as [s2| |] end; simpl; try reflexivity.
-    destruct K as (F1 & F2 & F3 & F4). destruct s2 as [st2 cv2 ti2 inn2 fd2 sd2 rg2 vs2 ou2 pr2].
+    destruct K as (F1 & F2 & F3 & F4). destruct s2 as [st2 cv2 ti2 inn2 fd2 sd2 rg2 vs2 lc2 ou2 pr2].
     simpl in F1, F2, F3, F4. subst cv2 fd2 sd2.
     destruct inn2 as [|[l c2] r2]; [contradiction|]. destruct F4 as [_ <-].
     st_simpl. reflexivity.
@@ -250,11 +261,13 @@ Section Sim.
     induction its as [|x r IH]; intros temp s Hc.
     - simpl. rewrite app_nil_r. reflexivity.
     - cbn [forallb] in Hc. apply andb_prop in Hc as [Hx Hr].
-      cbn [m_items r_items]. unfold with_stack, bracket. rewrite set_stk_same.
-      rewrite (Hrec true x s Hx). destruct (rrec x s) as [s1| |]; simpl; try reflexivity.
+      cbn [m_items r_items]. unfold with_stack, with_locals, bracket. rewrite set_stk_same.
+      rewrite (Hrec true x _ Hx). destruct (rrec x (set_locs s [])) as [s1| |]; simpl; try reflexivity.
       destruct (stk s1) as [|v rest]; simpl.
-      + rewrite (IH temp _ Hr). destruct (r_items rrec r (set_stk s1 (stk s))) as [[vs s2]| |]; reflexivity.
-      + rewrite (IH (temp ++ [v]) _ Hr). destruct (r_items rrec r (set_stk s1 (stk s))) as [[vs s2]| |]; simpl; try reflexivity.
+      + rewrite (IH temp _ Hr). unfold set_stk, set_locs; simpl.
+        match goal with |- context [r_items rrec r ?S1] => destruct (r_items rrec r S1) as [[vs s2]| |] end; reflexivity.
+      + rewrite (IH (temp ++ [v]) _ Hr). unfold set_stk, set_locs; simpl.
+        match goal with |- context [r_items rrec r ?S1] => destruct (r_items rrec r S1) as [[vs s2]| |] end; simpl; try reflexivity.
         rewrite <- app_assoc. reflexivity.
   Qed.
 
@@ -270,7 +283,7 @@ Section Sim.
         destruct (pop1 s) as [s1 v]. apply xbind_ext. intros items _. apply for_sim. exact Hb.
     - apply andb_prop in Hc as [Hc1 Hc2]. rewrite (Hrec indef cond s Hc1). apply xbind_ext. intros s1 _.
       destruct (pop1 s1) as [s2 v]. apply Hwl; assumption.
-    - rewrite Hc. destruct (lookup _ (vars s)) as [[z|l|c]|]; try reflexivity. apply callstk_sim.
+    - rewrite Hc. destruct (lookup_var _ s) as [[z|l|c]|]; try reflexivity. apply callstk_sim.
     - apply andb_prop in Hc as [Hc Hb]. apply andb_prop in Hc as [Hc Hp]. apply andb_prop in Hc as [Hi Hn].
       rewrite Hi, Hn. reflexivity.
     - reflexivity.
@@ -350,3 +363,16 @@ Qed.
 Corollary exec_frames cf fuel p s s' :
   core_ok_list false p = true -> exec cf fuel false p s = XOk s' -> frames s s'.
 Proof. intros Hc H. rewrite (compile_correct _ _ _ _ Hc) in H. eapply eval_frames; eauto. Qed.
+
+(* ---- stated over the core grammar as a whole (Values.core_program adds the static name discipline
+   under which the machine's account of Python scoping is faithful) ---------------------------------------- *)
+Lemma core_program_core p : core_program p = true -> core_ok_list false p = true.
+Proof. unfold core_program. intro H. apply andb_prop in H as [H _]. exact H. Qed.
+
+Theorem compile_correct_program cf fuel p s :
+  core_program p = true -> exec cf fuel false p s = eval cf fuel p s.
+Proof. intro H. apply compile_correct. apply core_program_core. exact H. Qed.
+
+Theorem program_correct_program fl fuel inputs p :
+  core_program p = true -> run_machine fl fuel inputs p = run_ref fl fuel inputs p.
+Proof. intro H. apply program_correct. apply core_program_core. exact H. Qed.
